@@ -3,6 +3,7 @@
 -/
 import Lean.Data.Json
 import AY.Model.Construct
+import AY.Model.Eval
 open Lean
 
 namespace AY.Codec
@@ -210,9 +211,64 @@ def errJ : Err → Json
   | .merge => Json.mkObj [("err", .str "merge")]
   | .notnew p => Json.mkObj [("err", .str "merge"), ("notnew", pathJ p)]
   | .eval => Json.mkObj [("err", .str "eval")]
+  | .recursion => Json.mkObj [("err", .str "recursion")]
   | .unsafeE => Json.mkObj [("err", .str "unsafe")]
   | .required ps => Json.mkObj [("err", .str "required"), ("paths", .arr (ps.map pathJ).toArray)]
   | .value => Json.mkObj [("err", .str "value")]
   | .unsupported => Json.mkObj [("err", .str "unsupported")]
+
+def sigOf (j : Json) : P Sig :=
+  match j with
+  | .arr a => a.toList.mapM (fun e =>
+      match e with
+      | .arr #[.str nm, .str kd, d] => do
+        let kind ← match kd with
+          | "pk" => pure ParamKind.posOrKw
+          | "va" => pure ParamKind.varPos
+          | "ko" => pure ParamKind.kwOnly
+          | "vk" => pure ParamKind.varKw
+          | _ => .error s!"bad param kind {kd}"
+        let dflt ← match d with
+          | .arr #[v] => do let s ← scalarOf v; pure (some s)
+          | _ => pure none
+        pure { name := nm, kind := kind, dflt := dflt }
+      | _ => .error s!"bad param {e.compress}")
+  | _ => .error "signature list expected"
+
+def strList (j : Json) (k : String) : P (List String) :=
+  match j.getObjVal? k with
+  | .ok (.arr a) => a.toList.mapM (fun e => match e with | .str s => pure s | _ => .error "string expected")
+  | _ => .ok []
+
+def worldOf (j : Json) : P World :=
+  match j.getObjVal? "world" with
+  | .error _ => .ok {}
+  | .ok w => do
+    let sigs ← match w.getObjVal? "sigs" with
+      | .ok (.arr a) => a.toList.mapM (fun e =>
+          match e with
+          | .arr #[.str nm, sg] => do let s ← sigOf sg; pure (nm, s)
+          | _ => .error "bad sigs entry")
+      | _ => pure []
+    let modules ← strList w "modules"
+    let syms ← strList w "syms"
+    let builtins ← strList w "builtins"
+    let cwd ← optStr w "cwd"
+    pure { sigs, modules, syms, builtins, cwd := cwd.getD "/" }
+
+partial def valJ : Val → Json
+  | .scalar s => scalarJ s
+  | .dict o items => Json.mkObj [("d", .arr (items.map (fun kv => Json.arr #[keyJ kv.1, valJ kv.2])).toArray), ("o", pathJ o)]
+  | .list o items => Json.mkObj [("l", .arr (items.map valJ).toArray), ("o", pathJ o)]
+  | .app o f named va vk => Json.mkObj [("app", .str f),
+      ("named", .arr (named.map (fun kv => Json.arr #[.str kv.1, valJ kv.2])).toArray),
+      ("va", .arr (va.map valJ).toArray),
+      ("vk", .arr (vk.map (fun kv => Json.arr #[.str kv.1, valJ kv.2])).toArray), ("o", pathJ o)]
+  | .part o f pos kw => Json.mkObj [("part", .str f), ("pos", .arr (pos.map valJ).toArray),
+      ("kw", .arr (kw.map (fun kv => Json.arr #[.str kv.1, valJ kv.2])).toArray), ("o", pathJ o)]
+  | .tuple o items => Json.mkObj [("t", .arr (items.map valJ).toArray), ("o", pathJ o)]
+  | .sym nm => Json.mkObj [("sym", .str nm)]
+  | .pathv s => Json.mkObj [("path", .str s)]
+  | .strs l => Json.mkObj [("l", .arr (l.map Json.str).toArray), ("o", .null)]
 
 end AY.Codec
